@@ -207,6 +207,7 @@ func (tx *Tx) Commit() (err error) {
 		return err
 	}
 	tx.stats.IncSpillTime(time.Since(startTime))
+	verifYield("commit:spilled")
 
 	// Free the old root bucket.
 	tx.meta.RootBucket().SetRootPage(tx.root.RootPage())
@@ -247,6 +248,8 @@ func (tx *Tx) Commit() (err error) {
 		return err
 	}
 
+	verifYield("commit:dataWritten")
+
 	// If strict mode is enabled then perform a consistency check.
 	if tx.db.StrictMode {
 		ch := tx.Check()
@@ -272,6 +275,7 @@ func (tx *Tx) Commit() (err error) {
 	tx.stats.IncWriteTime(time.Since(startTime))
 
 	// Finalize the transaction.
+	verifYield("commit:metaSynced")
 	tx.close()
 
 	// Execute commit handlers now that the locks have been removed.
@@ -364,6 +368,7 @@ func (tx *Tx) close() {
 		// Remove transaction ref & writer lock.
 		tx.db.rwtx = nil
 		tx.db.rwlock.Unlock()
+		verifYield("close:unlocked")
 
 		// Merge statistics.
 		if tx.db.stats != nil {
@@ -619,6 +624,7 @@ func (tx *Tx) writeMeta() error {
 		return err
 	}
 	tx.db.metalock.Unlock()
+	verifYield("commit:metaWritten")
 	if !tx.db.NoSync || common.IgnoreNoSync {
 		// gofail: var beforeSyncMetaPage struct{}
 		if err := fdatasync(tx.db); err != nil {
